@@ -41,7 +41,7 @@ func C13(tier rt.Tier) int {
 			{name: "1key-very-deep", keys: []int{0}, vals: []string{"a", "b"}, levels: []int{0}, gc: true, depth: 12, c13: true, maxNoDup: 7},
 		}
 	} else {
-		per = 8 * time.Minute
+		per = 5 * time.Minute
 		runs = []cfg{
 			{name: "3keys-all-levels", keys: []int{0, 2, 5}, vals: []string{"a", "b"}, levels: []int{0, 1, 2, 64}, gc: true, rootOp: true, depth: 9, c13: true, maxNoDup: 5},
 			{name: "4keys", keys: []int{0, 1, 2, 4}, vals: []string{"a", "b"}, levels: []int{0, 64}, gc: true, depth: 9, c13: true, maxNoDup: 5},
